@@ -107,21 +107,21 @@ pub fn eval(p: &Parameters, q: &Joints) -> Result<(Vec<(String, String)>, usize)
 fn theta_axes(thorough: bool) -> [Vec<f64>; 6] {
     if !thorough {
         [
-            vec![0.0, 0.7, -2.4, 3.0],
-            vec![-0.9, 0.2, 1.3, 2.5],
-            vec![-1.9, 0.8, 0.1, 2.6],
-            vec![0.0, 1.1, -3.0],
-            vec![0.6, -1.2, 2.2, -0.05],
-            vec![0.0, 2.5],
+            vec![0.0, 0.7, -2.4, 3.0, 1.9],
+            vec![-0.9, 0.2, 1.3, 2.5, -2.2],
+            vec![-1.9, 0.8, 0.1, 2.6, -0.7],
+            vec![0.0, 1.1, -3.0, 2.0],
+            vec![0.6, -1.2, 2.2, -0.05, 0.01, 3.0],
+            vec![0.0, 2.5, -1.0],
         ]
     } else {
         [
-            vec![0.0, 0.7, -2.4, 3.0, 1.9, -0.4, -PI + 0.01, 2.6],
-            vec![-0.9, 0.2, 1.3, 2.5, -2.2, 0.0, 3.0],
-            vec![-1.9, 0.8, 0.1, 2.6, -0.7, 1.6, -2.8],
-            vec![0.0, 1.1, -3.0, 2.0, -1.3, 0.4],
+            vec![0.0, 0.7, -2.4, 3.0, 1.9, -PI + 0.01],
+            vec![-0.9, 0.2, 1.3, 2.5, -2.2, 3.0],
+            vec![-1.9, 0.8, 0.1, 2.6, -0.7, -2.8],
+            vec![0.0, 1.1, -3.0, 2.0, -1.3],
             vec![0.6, -1.2, 2.2, -0.05, 0.01, 3.0, -2.6],
-            vec![0.0, 2.5, -1.0, 3.1],
+            vec![0.0, 2.5, -1.0],
         ]
     }
 }
